@@ -13,7 +13,22 @@ def nats (xs : List Sexp) : Option (List Nat) := xs.mapM fun x => match x with |
 
 def showIds (ids : List String) : String := "(ids" ++ String.join (ids.map fun i => " " ++ H i) ++ ")"
 
+/-- the n-th (modulo) slot of a kind -/
+def slotOfKind (sh : Shape) (kind n : Nat) : Option Nat :=
+  let idx := (List.range sh.kinds.length).filter fun i => sh.kinds.getD i 0 = kind
+  if idx.isEmpty then none else idx[n % idx.length]?
+
 def opStep (sh : Shape) (s : AState) : Sexp → Option (AState × String)
+  | .list [.atom "assignidk", .atom k, .atom n] | .list [.atom "assignid2k", .atom k, .atom n] => do
+    let k ← k.toNat?; let n ← n.toNat?
+    match slotOfKind sh k n with
+    | some i => let (s', id) := assignId s i; pure (s', H id)
+    | none => pure (s, "#")
+  | .list [.atom "editk", .atom k, .atom n, id] => do
+    let k ← k.toNat?; let n ← n.toNat?; let id ← str id
+    match slotOfKind sh k n with
+    | some i => pure (edit s i id, "ok")
+    | none => pure (s, "ok")
   | .list [.atom "setmodel"] => let s' := setModel s s.ids; some (s', "ok")
   | .list [.atom "edit", .atom i, id] => do let i ← i.toNat?; let id ← str id; pure (edit s i id, "ok")
   | .list [.atom "assignall"] => let (s', b) := assignAll true sh s; some (s', if b then "b1" else "b0")
@@ -22,6 +37,7 @@ def opStep (sh : Shape) (s : AState) : Sexp → Option (AState × String)
     let (s', b) := assignIds true sh s k
     pure (s', if b then "b1" else "b0")
   | .list [.atom "assignid", .atom i] => do let i ← i.toNat?; let (s', id) := assignId s i; pure (s', H id)
+  | .list [.atom "assignid2", .atom i] => do let i ← i.toNat?; let (s', id) := assignId s i; pure (s', H id)
   | .list [.atom "clearall"] => some (clearAll s, "ok")
   | .list [.atom "item", id] => do
     let id ← str id
